@@ -86,7 +86,7 @@ def run_check(pid, tier, seed):
         importlib.import_module(sc)
     known = load_known()
     kn = [k for k in known.get("findings", []) if k["property"] == pid]
-    L = ldr.Loader(overrides=getattr(pm, "OVERRIDES", {}))
+    L = ldr.Loader(overrides=getattr(pm, "OVERRIDES", {}), symbolic=getattr(pm, "SYMBOLIC_MODULES", ()))
     from pyvc import session
     session._LOADER[0] = L
     t_z3 = 40000 if tier == "quick" else 120000
@@ -294,7 +294,7 @@ def _job(job):
             return {"bres": None, "error": "".join(traceback.format_exception(type(e), e, e.__traceback__))[-3000:]}
     for sc in pm.SIDECARS:
         importlib.import_module(sc)
-    L = ldr.Loader(overrides=getattr(pm, "OVERRIDES", {}))
+    L = ldr.Loader(overrides=getattr(pm, "OVERRIDES", {}), symbolic=getattr(pm, "SYMBOLIC_MODULES", ()))
     session._LOADER[0] = L
     if kind == "func":
         con = contract.REGISTRY[name]
